@@ -88,6 +88,23 @@ type P12 struct {
 	Tag   *string `json:"tag"`
 }
 
+// P13 maps integer properties to Go fields that are not int64 (unsigned and narrow kinds); the schema
+// bounds of these properties stay within the field's range.
+type P13 struct {
+	Port    uint16  `json:"port"`
+	Retries uint    `json:"retries"`
+	Limit   *uint64 `json:"limit"`
+	Small   int8    `json:"small"`
+}
+
+// P14 has only value fields; with treat-empty-as-default on every property the zero value stands for absence
+// (the second way, besides pointer fields, in which a struct can leave a property out).
+type P14 struct {
+	A int64 `json:"a"`
+	B int64 `json:"b"`
+	C int64 `json:"c"`
+}
+
 type P9 struct {
 	FieldByName int64
 	Other       string `json:"other,omitempty"`
@@ -127,6 +144,10 @@ func buildStruct(name, id string, props map[string]*schema.PropertySchema) *sche
 		return schema.NewStructMappedObjectSchema[P11](id, props)
 	case "P12":
 		return schema.NewStructMappedObjectSchema[P12](id, props)
+	case "P13":
+		return schema.NewStructMappedObjectSchema[P13](id, props)
+	case "P14":
+		return schema.NewStructMappedObjectSchema[P14](id, props)
 	case "P10":
 		return schema.NewStructMappedObjectSchema[P10](id, props)
 	case "*P10":
@@ -166,6 +187,10 @@ func ZeroStruct(name string) any {
 		return P11{}
 	case "P12":
 		return P12{}
+	case "P13":
+		return P13{}
+	case "P14":
+		return P14{}
 	case "P10":
 		return P10{}
 	case "*P10":
